@@ -51,10 +51,10 @@ var Programs = []string{
 // LargePrograms are explored with one haystack beyond the bounded backtracker's input limit (32 Mi / NFA states
 // entries), which switches the engine to its large-input fallback paths. A haystack written "@repeat:N:text" stands
 // for text repeated N times (kept symbolic so that reports stay small).
-var LargePrograms = []string{`\pL+`}
+var LargePrograms = []string{`\p{Greek}+`}
 
-// BigHay is the symbolic large haystack (≈ 9 KB; the backtracker limit of `\\pL+` is ≈ 5.5 KB).
-const BigHay = "@repeat:800:αβγ δε "
+// BigHay is the symbolic large haystack (≈ 330 KB; the backtracker limit of `\\p{Greek}+` is ≈ 207 KB).
+const BigHay = "@repeat:30000:αβγ δε "
 
 // Expand resolves the symbolic haystack notation.
 func Expand(h string) string {
@@ -153,7 +153,7 @@ var RunUnit func(w *harness.W, u Unit, bound int, capExec int)
 func Plan(tier string) *harness.Plan {
 	thorough := tier == "thorough"
 	units := Units(thorough)
-	bound, capExec := 2, 1200
+	bound, capExec := 2, 1000
 	budget := 150 * time.Second
 	if thorough {
 		bound, capExec, budget = 2, 200000, 40*time.Minute
@@ -166,7 +166,7 @@ func Plan(tier string) *harness.Plan {
 			}
 			b, c := bound, capExec
 			if w.Pass == "race-detector" && !thorough {
-				b, c = 1, 600 // the -race build is ~10x slower: the quick tier runs it at preemption bound 1
+				b, c = 1, 300 // the -race build is ~10x slower: the quick tier runs it at preemption bound 1
 			}
 			if strings.Contains(units[u].String(), "@repeat:") {
 				c = min(c, 150) // executions over a large haystack are ~100x more expensive
